@@ -635,6 +635,7 @@ pub fn run(tier: Tier, seed: u64) -> EnumOut {
 		}),
 	);
 	whitelist_leg(tier, &mut res);
+	same_file_twice_leg(&mut res);
 	res.rule = out.rule;
 	res.assumptions = out.assumptions;
 	let _ = WL;
@@ -755,6 +756,47 @@ fn whitelist_leg(tier: Tier, res: &mut EnumOut) {
 	res.extra.insert("whitelist_lookup_leg".into(), json!({"pool": WL_POOL, "ordered_whitelists": n, "evaluations": evals}));
 }
 
+/// Same-file-twice leg: one ignore file listed twice with different scopes (as the CLI does for
+/// an `--ignore-file` that discovery also finds). Differential: the globset filterer built with
+/// only that list must agree with `IgnoreFilter::new` on the same list.
+fn same_file_twice_leg(res: &mut EnumOut) {
+	let rt = runtime();
+	let fx = Fixture::new("c11-twice");
+	let sub = fx.origin.join("sub");
+	let _ = std::fs::create_dir_all(&sub);
+	let file = sub.join(".extra-ignore");
+	let _ = std::fs::write(&file, "*.tmp\n");
+	let scoped = IgnoreFile { path: file.clone(), applies_in: Some(sub.clone()), applies_to: None };
+	let global = IgnoreFile { path: file.clone(), applies_in: None, applies_to: None };
+	let mut n = 0u64;
+	for (label, list) in [("scoped-then-global", vec![scoped.clone(), global.clone()]), ("global-then-scoped", vec![global.clone(), scoped.clone()]), ("scoped-twice", vec![scoped.clone(), scoped.clone()])] {
+		let reference = rt.block_on(IgnoreFilter::new(&fx.origin, &list));
+		let subject = rt.block_on(GlobsetFilterer::new(&fx.origin, vec![], vec![], vec![], list.clone(), vec![]));
+		let (Ok(mut reference), Ok(subject)) = (reference, subject) else {
+			res.violate(format!("C11/same-ignore-file-listed-twice/{label}/construction-error"), "construction failed", json!({"law": "same-file-twice", "list": label}));
+			continue;
+		};
+		reference.finish();
+		let reference = IgnoreFilterer(reference);
+		for rel in ["a.tmp", "sub/b.tmp", "other/c.tmp", "sub/deep/d.tmp", "a.txt"] {
+			let ev = Event { tags: vec![Tag::Path { path: fx.origin.join(rel), file_type: Some(FileType::File) }], metadata: Default::default() };
+			n += 1;
+			let want = reference.check_event(&ev, Priority::Normal).unwrap_or(true);
+			let got = subject.check_event(&ev, Priority::Normal).unwrap_or(true);
+			if want != got {
+				res.violate(
+					format!("C11/same-ignore-file-listed-twice/{label}"),
+					format!("ignore file sub/.extra-ignore (*.tmp) listed {label}: the loaded ignore files {} {rel}, the globset filterer {} it", if want { "pass" } else { "reject" }, if got { "passes" } else { "rejects" }),
+					json!({"law": "same-file-twice", "list": label}),
+				);
+			}
+		}
+	}
+	res.states += 3;
+	res.evaluations += n;
+	res.extra.insert("same_file_twice_leg".into(), json!({"lists": 3, "evaluations": n}));
+}
+
 // ---------------------------------------------------------------------------------------
 // replay of one recorded case
 
@@ -775,6 +817,11 @@ fn strings(v: &Value) -> Vec<String> {
 
 pub fn replay(input: &Value) -> Vec<(String, String)> {
 	let go = || -> Result<Vec<(String, String)>, String> {
+		if input["law"].as_str() == Some("same-file-twice") {
+			let mut o = EnumOut::new("replay");
+			same_file_twice_leg(&mut o);
+			return Ok(o.violations.into_iter().map(|c| (c.key, c.detail)).collect());
+		}
 		if input["law"].as_str() == Some("whitelist-lookup") {
 			let order = strings(&input["whitelist"])
 				.iter()
